@@ -14,7 +14,6 @@ VARIABLE i
 Init == i \in 1..Len(Rows)
 Next == UNCHANGED i
 
-Min(S) == CHOOSE k \in S : \A j \in S : k <= j
 Want(r) == <<r.out.err, r.out.val, Disk(r.W)>>
 DiffSteps(a, b) == {k \in DOMAIN a : k \notin DOMAIN b \/ a[k] # b[k]} \cup (DOMAIN b \ DOMAIN a)
 Failed(row) ==
